@@ -11,6 +11,7 @@ python3 lib/facts.py default >/dev/null 2>&1 &
 python3 lib/facts.py nofast >/dev/null 2>&1 &
 python3 lib/facts.py diag >/dev/null 2>&1 &
 python3 lib/facts.py wheel >/dev/null 2>&1 &
+python3 -c "import sys; sys.path.insert(0, '.'); from lib import facts; facts.fixtures_facts()" >/dev/null 2>&1 &
 wait
 python3 -m compileall -q lib rules >/dev/null 2>&1 || true
 echo setup done
